@@ -21,6 +21,13 @@ def streams(tier, seed, wd, wide=False):
     cases = [gen_lbuf.history(rng, 40, wellformed=False, marks=True) for _ in range(4000 if big else 400)]
     out.append(relabel_stream(probe, "raw", "lops", "lops04", cases,
         "histories without command boundaries, with marks and jumps: model and implementation compared on text, return codes, all 32 marks and the history cursor (no reference judgement)"))
+    # editor level: every ex command is one undo step of the buffer it changed
+    import gen_ex
+    from props import exlib
+    exprobe = exlib.build(wd)
+    cases = gen_ex.buf_cases(rng, 8000 if big else 500, 3, 14) + gen_ex.c06_cases(rng, 6000 if big else 400) + gen_ex.c15_cases(rng, 3000 if big else 200)
+    out.append(exlib.ex_stream(exprobe, "editor", "ex04", cases,
+        "ex scripts over one and several buffers (line commands, :s, :g, e!, buffer switches inside a command line): a per-buffer ghost stack of texts at command boundaries judges every u and redo"))
     return out
 
 def main(tier, seed, replay):
